@@ -13,8 +13,8 @@
 (*                                                                         *)
 (* A *signature* is the sequence of parameters declared after              *)
 (* `self, context`.  The parameter at index i is called Names[i]; its kind *)
-(* is po (positional-only), pk (positional-or-keyword), va = *args,          *)
-(* ko (keyword-only) or vk = **kwargs; d says whether it has a default       *)
+(* is po (positional-only), pk (positional-or-keyword), va = *args,        *)
+(* ko (keyword-only) or vk = **kwargs; d says whether it has a default     *)
 (* (the default of parameter i is the value Def(i)).                       *)
 (*                                                                         *)
 (* A *call* is a sequence of items: P (one positional argument),           *)
@@ -148,6 +148,11 @@ Consume(sig, b, it) ==
     [] it.t = "D" ->
          KwSeq(sig, [b EXCEPT !.seenD = TRUE, !.seenNE = @ \/ Len(it.ks) > 0], it.ks, 1)
 
+\* the binder state after a whole call
+RECURSIVE RunR(_, _, _)
+RunR(sig, call, n) == IF n = 0 THEN B0(sig) ELSE Consume(sig, RunR(sig, call, n - 1), call[n])
+Run(sig, call) == RunR(sig, call, Len(call))
+
 (* ---- outcomes ------------------------------------------------------------ *)
 Ok(slot, star, kw) == [o |-> "ok", slot |-> slot, star |-> star, kw |-> kw]
 TypeErr   == [o |-> "type",   slot |-> <<>>, star |-> <<>>, kw |-> <<>>]
@@ -255,6 +260,9 @@ Pass(it) == /\ WellFormedItem(it)
             /\ UNCHANGED sig
 
 (* ---- theorems checked by TLC on every reachable state ---------------------- *)
+\* the binder state is a function of (signature, call): binding is deterministic
+StateIsFunctionOfCase == b = Run(sig, call)
+
 \* (also when a list spread arrives after keywords: only the kind of error may differ)
 MachineAgreesWithDeclarative == SameOutcome(Runtime(sig, b), BindDecl(sig, Flat(call)))
 
